@@ -21,7 +21,11 @@ void aq_setup(unsigned depth, unsigned msg_len, unsigned slack)
 		memset(store[i], 0xEE, store_len);
 		q[i] = malloc(sizeof(messageq_t));
 	}
-	messageq_t tmp = MESSAGEQ_VAR_INIT(store[0], store_len, msg_len);
+	/* the macro is handed expressions, not identifiers, as a caller writing sizeof(hdr) + sizeof(payload) would:
+	 * an unparenthesised parameter in the macro body changes the geometry */
+	size_t len_a = store_len / 2, len_b = store_len - len_a;
+	unsigned hdr = msg_len / 3, payload = msg_len - hdr;
+	messageq_t tmp = MESSAGEQ_VAR_INIT(store[0], len_a + len_b, hdr + payload);
 	memcpy(q[0], &tmp, sizeof tmp);
 	messageq_init(q[1], store[1], store_len, msg_len);
 }
